@@ -114,12 +114,12 @@ def plan(tier, seed):
         for c in rng.sample(rest, 72):
             shards.append({"kind": "toy", "curve": _toy_params(c), "part": 0, "parts": 1, "full": False, "budget": 30000,
                            "label": "toy n=%d sampled" % c.n})
-        big("secp256k1", "module", 1500, "mixed", count=8)
-        big("secp256r1", "module", 1500, "mixed", count=8)
-        big("secp256k1", "module", 110, "lite", env=NONE_ENV, count=10)
-        big("secp256r1", "module", 110, "lite", env=NONE_ENV, count=6)
-        big("secp256k1", "inproc", 110, "lite", count=6)
-        big("secp256r1", "inproc", 110, "lite", count=5)
+        big("secp256k1", "module", 1000, "mixed", count=8)
+        big("secp256r1", "module", 1000, "mixed", count=8)
+        big("secp256k1", "module", 80, "lite", env=NONE_ENV, count=10)
+        big("secp256r1", "module", 80, "lite", env=NONE_ENV, count=6)
+        big("secp256k1", "inproc", 80, "lite", count=6)
+        big("secp256r1", "inproc", 80, "lite", count=5)
         shards.append({"kind": "memcheck", "iterations": 300, "vg_timeout": 3000, "label": "memcheck"})
         # long shards first so the tail is short
         shards.sort(key=lambda s: {"memcheck": 0, "big": 1, "toy": 2}[s["kind"]])
@@ -157,7 +157,23 @@ class Ctx:
     pass
 
 
+class GeneratorUnavailable(Exception):
+    pass
+
+
 def get_ctx(curve, gen, rec):
+    """the generator under test; if the library cannot even build / import it, that is reported as a violation
+    (no operation of the property can succeed in that configuration) and the shard ends."""
+    try:
+        return _get_ctx(curve, gen, rec)
+    except GeneratorUnavailable:
+        raise
+    except Exception as e:
+        rec.violation("generator.construction_raises", {"kind": "import", "curve": curve, "gen": gen}, e, "a usable generator object")
+        raise GeneratorUnavailable(str(e))
+
+
+def _get_ctx(curve, gen, rec):
     key = (repr(curve), gen)
     if key in _STATE["ctx"]:
         ctx = _STATE["ctx"][key]
@@ -680,6 +696,8 @@ def run_shard(spec, rec):
             memcheck.run(spec, rec, PROPERTY)
         else:
             {"big": run_big, "toy": run_toy}[kind](spec, rec)
+    except GeneratorUnavailable:
+        rec.case(("generator_unavailable", spec.get("curve"), spec.get("gen")))
     finally:
         rec.ev("cpu_ms:" + kind, int(time.process_time() * 1000))
 
@@ -692,6 +710,11 @@ def replay_case(case, rec):
     curve = case["curve"]
     if isinstance(curve, list):
         curve = [int(v) for v in curve]
-    ctx = get_ctx(curve, case.get("gen", "inproc"), rec)
+    try:
+        ctx = get_ctx(curve, case.get("gen", "inproc"), rec)
+    except GeneratorUnavailable:
+        return
+    if kind == "import":
+        return
     case = dict(case, curve=curve)
     JUDGES[kind](ctx, case)
